@@ -53,6 +53,7 @@ func (x *Exec) wireDecode(st *State, order string, t types.Type, chunk string) s
 		}
 		n, _ := wireSize(t)
 		v := app(fmt.Sprintf("g_%s%d", order, n*8), chunk)
+		x.groundCodec(st, order, int(n), chunk, v)
 		if r.signed {
 			return r.wrap1(v)
 		}
@@ -133,4 +134,33 @@ func (x *Exec) wireEncode(st *State, order string, t types.Type, v string) strin
 		return out
 	}
 	return st.fresh("enc", SSeqI)
+}
+
+// groundCodec adds the ground instance of the byte-level definition of a
+// fixed-width decode (a consequence of the codec axioms; it lets the
+// quantifier-free pass prove arithmetic facts and produce faithful models).
+func (x *Exec) groundCodec(st *State, order string, n int, chunk, v string) {
+	args, ok := splitCtor(chunk, seqFn(SSeqI, "sl"))
+	if !ok || len(args) != 3 {
+		return
+	}
+	base, lo, hi := args[0], args[1], args[2]
+	var terms []string
+	var facts []string
+	for k := 0; k < n; k++ {
+		pos := k
+		if order == "be" {
+			pos = n - 1 - k
+		}
+		b := sIdx(SSeqI, base, tAdd(lo, num(int64(pos))))
+		terms = append(terms, tMulC(numLit(pow2(uint(8*k))), b))
+		facts = append(facts, tCmp("<=", "0", b), tCmp("<=", b, "255"))
+	}
+	sum := terms[0]
+	if len(terms) > 1 {
+		sum = app("+", terms...)
+	}
+	facts = append(facts, tEq(v, sum))
+	guard := tAnd(app("g_isbytes", base), tCmp("<=", "0", lo), tCmp("<=", hi, app(seqFn(SSeqI, "len"), base)))
+	st.assume(tImp(guard, tAnd(facts...)))
 }
